@@ -28,6 +28,9 @@ Definition exn_file : bytes := ex_file 0 ex_chunks.
 (** one stored byte of the second chunk changed *)
 Definition exz_bad : bytes := firstn 120 exz_file ++ [44] ++ skipn 121 exz_file.
 
+(** the uncompressed file with one stored byte of the second chunk changed *)
+Definition exn_bad : bytes := firstn 120 exn_file ++ [44] ++ skipn 121 exn_file.
+
 Definition hdr_of (f : bytes) : option header :=
   match parse_impl toyH no_pins f with POk h => Some h | _ => None end.
 
@@ -49,4 +52,33 @@ Fixpoint ex_requests (h : header) (f : bytes) (st : rstate) (ks : list nat) : li
       let n := match skipn k (h_chunks h) with c :: _ => c_ulen c | [] => 0 end in
       let (r, st') := zck_get_chunk_data toyH toyZ h f 100 st k n in
       r :: ex_requests h f st' ks'
+  end.
+
+(** zck_get_chunk_data as it was BEFORE the request fix (no fresh chunk checksum, no
+    end-of-chunk step after the read): kept as the witness of the old behaviour *)
+Definition zck_get_chunk_data_before_fix (H : N -> bytes -> bytes) (zdecomp : option bytes -> bytes -> N -> option bytes)
+    (hd : header) (f : bytes) (fuel : nat) (st : rstate) (k : nat) (dst_size : N) : rres * rstate :=
+  match skipn k (h_chunks hd) with
+  | [] => (RErr (-1), st)
+  | c :: next =>
+      if 0 <? r_err st then (RErr (-1), st)
+      else if c_ulen c =? 0 then (ROk [], st)
+      else
+        let r1 :=
+          if (0 <? first_ulen hd) && (match r_dict st with None => true | Some _ => false end) then
+            match comp_init (comp_reset (seek f st (data_offset hd))) with
+            | Some st1 => import_dict H zdecomp hd fuel st1
+            | None => (false, comp_reset (seek f st (data_offset hd)))
+            end
+          else (true, st) in
+        match r1 with
+        | (false, st1) => (RErr (-1), st1)
+        | (true, st1) =>
+            match comp_init (comp_reset (reset_comp_data st1)) with
+            | None => (RErr (-1), comp_reset (reset_comp_data st1))
+            | Some st2 =>
+                comp_read H zdecomp hd fuel (set_idx (seek f st2 (data_offset hd + c_start c)) (c :: next)) dst_size
+                          (match k with O => false | _ => true end)
+            end
+        end
   end.
